@@ -2328,6 +2328,16 @@ static iwrc _lx_split_addkv(struct iwlctx *lx, int idx, struct sblk *sblk) {
   bool uside = (idx == sblk->pnum);
   register const int8_t pivot = (KVBLK_IDXNUM / 2) + 1; // 32
 
+  { // a record `_kvblk_addkv` is going to refuse by size must be refused before the node is split: the split is not undone
+    size_t ksize = lx->key->size;
+    if (db->dbflg & IWDB_COMPOUND_KEYS) {
+      ksize += IW_VNUMSIZE(lx->key->compound);
+    }
+    if (IW_VNUMSIZE(ksize) + ksize + lx->val->size > IWKV_MAX_KVSZ) {
+      return IWKV_ERROR_MAXKVSZ;
+    }
+  }
+
   if (uside) { // Upper side
     rc = _sblk_create(lx, (uint8_t) lx->nlvl, 0, sblk, lx->upper, &nb);
     RCRET(rc);
